@@ -7,15 +7,15 @@ export GOFLAGS=-mod=mod GOPROXY=off GOSUMDB=off GOTOOLCHAIN=local
 cd $WT || exit 2
 git checkout -q -- . ; rm -f $PKG/zz_seed_demo_test.go
 git apply $OUT/patch.diff || { echo "APPLY-FAILED"; exit 1; }
-go build ./... > /tmp/confirm_$ID.build 2>&1 || { echo "BUILD-FAILED"; tail -5 /tmp/confirm_$ID.build; git checkout -q -- .; exit 1; }
+go build ./... > /tmp/confirm_$ID${SEEDSUFFIX:-}.build 2>&1 || { echo "BUILD-FAILED"; tail -5 /tmp/confirm_$ID${SEEDSUFFIX:-}.build; git checkout -q -- .; exit 1; }
 echo "build ok"
-go test -vet=off -count=1 -timeout 25m "$@" > /tmp/confirm_$ID.tests 2>&1; rc=$?
-echo "existing tests with change: rc=$rc"; grep -v "^ok\|no test files" /tmp/confirm_$ID.tests | head -5
+go test -vet=off -count=1 -timeout 25m "$@" > /tmp/confirm_$ID${SEEDSUFFIX:-}.tests 2>&1; rc=$?
+echo "existing tests with change: rc=$rc"; grep -v "^ok\|no test files" /tmp/confirm_$ID${SEEDSUFFIX:-}.tests | head -5
 cp $OUT/demo_test.go $PKG/zz_seed_demo_test.go
-go test -vet=off -count=1 -timeout 25m -run 'Demo|Seed|TestC[0-9]+' ./$PKG/ > /tmp/confirm_$ID.demo_with 2>&1; rcw=$?
+go test -vet=off -count=1 -timeout 25m -run 'Demo|Seed|TestC[0-9]+' ./$PKG/ > /tmp/confirm_$ID${SEEDSUFFIX:-}.demo_with 2>&1; rcw=$?
 echo "demo WITH change: rc=$rcw (expected non-zero)"
 git checkout -q -- .
-go test -vet=off -count=1 -timeout 25m -run 'Demo|Seed|TestC[0-9]+' ./$PKG/ > /tmp/confirm_$ID.demo_without 2>&1; rco=$?
+go test -vet=off -count=1 -timeout 25m -run 'Demo|Seed|TestC[0-9]+' ./$PKG/ > /tmp/confirm_$ID${SEEDSUFFIX:-}.demo_without 2>&1; rco=$?
 echo "demo WITHOUT change: rc=$rco (expected 0)"
 rm -f $PKG/zz_seed_demo_test.go
 if [ $rc -eq 0 ] && [ $rcw -ne 0 ] && [ $rco -eq 0 ]; then echo "CONFIRMED $ID"; else echo "NOT-CONFIRMED $ID"; fi
